@@ -8,7 +8,13 @@ from concurrent.futures import ThreadPoolExecutor
 import vlib
 from vlib import HarnessError, log
 
-ENTRIES = ["Validate", "ValidateWithConfiguration", "CompileProfile", "CompileProfile+ValidateCompiled", "CompileProfile+ValidateCompiledWithConfiguration"]
+ENTRIES = ["Validate", "ValidateWithConfiguration", "CompileProfile", "CompileProfile+ValidateCompiled", "CompileProfile+ValidateCompiledWithConfiguration",
+           # the observed call is the second one through the same channel variable (fresh channel per run)
+           "Again:Validate", "Again:CompileProfile+ValidateCompiled", "AgainAfterFailedCompile:CompileProfile+ValidateCompiled"]
+
+
+def base_entry(entry):
+    return entry.split(":", 1)[1] if ":" in entry else entry
 CAPS = [0, 1, 3, 64]
 CONSUMERS = ["eager", "lagging", "milestones"]
 
@@ -37,6 +43,23 @@ def failures(sc):
     return fs
 
 
+def run_prefix(sc, testbin, job, shard, nshard, idx):
+    """Re-executes the cells of one shard up to idx in one process; returns the result of cell idx."""
+    outdir = os.path.join(sc.dir, "bubble")
+    os.makedirs(outdir, exist_ok=True)
+    tag = "%d-%d" % (os.getpid(), idx)
+    j = dict(job, shard=shard, nshard=nshard, replay_until={"idx": idx}, out=os.path.join(outdir, "prefix-%s.jsonl" % tag))
+    j.pop("replay", None)
+    jf = os.path.join(outdir, "prefixjob-%s.json" % tag)
+    json.dump(j, open(jf, "w"))
+    env = dict(vlib.ENV)
+    env.update({"SIM_JOB": jf, "GODEBUG": "asynctimerchan=0", "GOMAXPROCS": "2"})
+    subprocess.run([testbin, "-test.run", "TestBubble", "-test.timeout", "0"], env=env, capture_output=True, text=True, timeout=1800)
+    res = [json.loads(l) for l in open(j["out"]) if l.strip().startswith("{")] if os.path.exists(j["out"]) else []
+    res = [r for r in res if "cell" in r]
+    return res[-1] if res else None
+
+
 def run_bubbles(sc, testbin, job, nshard, timeout=1800, gomaxprocs=2):
     outdir = os.path.join(sc.dir, "bubble")
     os.makedirs(outdir, exist_ok=True)
@@ -63,7 +86,7 @@ def run_bubbles(sc, testbin, job, nshard, timeout=1800, gomaxprocs=2):
                     donef = True
                 else:
                     res.append(r)
-        if not donef and "replay" not in job:
+        if not donef and "replay" not in job and "replay_until" not in job:
             raise HarnessError("bubble shard %d ended unexpectedly (rc=%d): %s %s" % (i, p.returncode, p.stdout[-2000:], p.stderr[-2000:]))
         return res
 
@@ -122,6 +145,7 @@ def judge(r, ff, ops, ffsteps):
             out.append(("double_close", entry_kind(entry), "the library closed the event channel twice"))
         elif "send on closed channel" in p:
             out.append(("send_after_close", entry_kind(entry), "the library sent an event after closing the channel"))
+    entry = base_entry(entry)
     compile_ok_alone = entry == "CompileProfile" and ret == ["ok"]
     dl = r.get("deadlock") or ""
     if compile_ok_alone:
@@ -189,4 +213,4 @@ def judge(r, ff, ops, ffsteps):
 
 
 def entry_kind(entry):
-    return entry.replace("WithConfiguration", "")
+    return base_entry(entry).replace("WithConfiguration", "")
